@@ -34,10 +34,7 @@ def cases(ctx):
     if ctx.quick:
         base = [c for c in allc if c['opts'] == ['-r'] and c['funcs'] in (['f'], ['f', 'K.meth', 'h']) and c['D'] and c['T']]
         allc = base + ctx.rng.fork('c20').sample(allc, 120)
-    elif ctx.broken:
-        pass
-    else:
-        allc = ctx.rng.fork('c20').sample(allc, 1500)
+    # thorough tier (and a broken obligation): the whole product
     for i, c in enumerate(allc):
         c = dict(c)
         c['id'] = i
